@@ -133,6 +133,16 @@ Fixpoint parse_names (k : nat) (ts : list str) : option (list fname * list str) 
 
 Definition chr (c : N) (s : str) : bool := str_eqb s [c].
 
+Definition parse_torn (ts : list str) : option (list str) :=
+  match ts with
+  | nt :: r => match hex_to_N nt with
+               | Some nt => let k := (3 * N.to_nat nt)%nat in
+                            if Nat.leb k (length r) then Some (skipn k r) else None
+               | None => None
+               end
+  | [] => None
+  end.
+
 (* run the pending background rotation, if any (awaitRotationLocked) *)
 Definition settle (st : rst) : rst :=
   match r_wal st with
@@ -168,7 +178,10 @@ Fixpoint run_ops (fuel : nat) (st : rst) (ts : list str) (acc : list str) : list
           let bad := rev_append (s_bad :: acc) [] in
           if chr 79 op then (* O : open *)
             (* every Open gets a fresh metrics collector *)
-            let '(res, e') := open_wal (r_cfg st) (with_m (r_env st) zero_metrics) in
+            let e0 := r_env st in
+            let '(res, e') := open_wal (r_cfg st)
+                                {| e_acts := e_acts e0; e_disk := adopt_disk (e_disk e0);
+                                   e_fault := e_fault e0; e_m := zero_metrics |} in
             match res with
             | OOk w => run_ops fuel' (set_we st w e') r (s_ok :: acc)
             | OErr _ => run_ops fuel' {| r_cfg := r_cfg st; r_wal := None; r_env := e'; r_mark := r_mark st; r_base := r_base st; r_base_n := r_base_n st |}
@@ -343,7 +356,12 @@ Fixpoint run_ops (fuel : nat) (st : rst) (ts : list str) (acc : list str) : list
                         match hex_to_N nb with
                         | Some nb =>
                             match parse_names (N.to_nat nb) r2 with
-                            | Some (kb, r3) =>
+                            | Some (kb, r3a) =>
+                              (* torn batches: <nt> (<base> <id> <chunk mask>)*; a torn batch is
+                                 recovered as absent (segment-level law), so the model only skips them *)
+                              match parse_torn r3a with
+                              | None => bad
+                              | Some r3 =>
                                 let all := rev_append (e_acts (r_env st)) [] in
                                 let pre := firstn (N.to_nat k) all in
                                 let since := skipn (r_base_n st) pre in
@@ -353,6 +371,7 @@ Fixpoint run_ops (fuel : nat) (st : rst) (ts : list str) (acc : list str) : list
                                                  r_env := {| e_acts := rev_append pre []; e_disk := d;
                                                              e_fault := None; e_m := zero_metrics |};
                                                  r_mark := length pre; r_base := d; r_base_n := length pre |} r3 acc
+                              end
                             | None => bad
                             end
                         | None => bad
@@ -365,7 +384,7 @@ Fixpoint run_ops (fuel : nat) (st : rst) (ts : list str) (acc : list str) : list
             end
           else if chr 90 op then (* Z : process restart without power loss *)
             run_ops fuel' {| r_cfg := r_cfg st; r_wal := None;
-                             r_env := {| e_acts := e_acts (r_env st); e_disk := e_disk (r_env st);
+                             r_env := {| e_acts := e_acts (r_env st); e_disk := adopt_disk (e_disk (r_env st));
                                          e_fault := e_fault (r_env st); e_m := zero_metrics |};
                              r_mark := r_mark st; r_base := r_base st; r_base_n := r_base_n st |} r acc
           else if chr 78 op then (* N : number of I/O actions so far *)
